@@ -367,10 +367,6 @@ class Subject:
 
 
 # ----------------------------------------------------------------------------- one enumeration under the monitors
-class Abort(Exception):
-    pass
-
-
 def _opnames(muts):
     return "+".join(sorted({m.operator.__name__ for m in muts}))
 
